@@ -6,7 +6,7 @@
    by all their field checksums), the limit loop and batchableServer. *)
 From Coq Require Import ZArith NArith List Bool Permutation Sorted.
 Import ListNotations.
-From Verif Require Import Lib.Corr Lib.Proxy_Order Lib.Proxy_Model Lib.Proxy_Proofs Lib.Proxy_LoserTree Gen.C03 Model.C03 Proofs.C03.
+From Verif Require Import Lib.Corr Lib.Proxy_Order Lib.Proxy_Model Lib.Proxy_Proofs Lib.Proxy_LoserTree Gen.C03 Model.C03 Proofs.C03_Inst Proofs.C03 Proofs.C03_Ring.
 Open Scope Z_scope.
 
 (* For every number of stores, all series sets, frame / batch splits, duplicate
@@ -84,6 +84,28 @@ Theorem C03_batch_transparent : forall (n : nat) (l : list resp), unbatch (send_
 Proof. exact batch_transparent. Qed.
 Print Assumptions C03_batch_transparent.
 
+(* Lazy retrieval, schedules: the ring buffer of any size (fixedBufferSize = requested size + 1
+   >= 2) between the receiver goroutine and the merge. For EVERY interleaving of append and pop
+   steps the merge has received a prefix of what the store sent, in order, nothing lost or
+   duplicated (received ++ buffered ++ not-yet-appended = the store's stream); while data
+   remains some step is enabled (no deadlock); every step decreases a measure, so all runs end
+   with the whole stream received. This is why the model may treat a lazy stream as the
+   sequence of the store's frames. *)
+Theorem C03_ring_fifo : forall (A : Type) (d : A) (N : Z), 2 <= N -> forall input st,
+  reach N (init d input) st -> wf N st /\ received st ++ contents N st ++ pending st = input.
+Proof. exact @ring_fifo. Qed.
+Print Assumptions C03_ring_fifo.
+
+Theorem C03_ring_progress : forall (A : Type) (d : A) (N : Z), 2 <= N -> forall input st,
+  reach N (init d input) st -> (pending st <> [] \/ contents N st <> []) -> exists st', step N st st'.
+Proof. exact @ring_progress. Qed.
+Print Assumptions C03_ring_progress.
+
+Theorem C03_ring_terminates : forall (A : Type) (d : A) (N : Z), 2 <= N -> forall input st st',
+  reach N (init d input) st -> step N st st' -> (measure N st' < measure N st)%nat.
+Proof. exact @ring_terminates. Qed.
+Print Assumptions C03_ring_terminates.
+
 (* the series limit of the request (not part of the property's statement, pinned here because
    [limit_break] is regenerated from the source): a positive limit passes exactly the first
    `limit` responses of the merged, de-duplicated stream *)
@@ -122,3 +144,15 @@ Example C03_nonvacuous :
   /\ lt_merge lbl_cmp wlen (streams_of true [] ex_scripts)
      = [RSeries (ex_l 49) [ex_c 10 2; ex_c 20 3]; RSeries (ex_l 49) [ex_c 0 1; ex_c 10 2]; RSeries (ex_l 50) [ex_c 0 4]].
 Proof. split; vm_compute; reflexivity. Qed.
+
+(* a buffer of size 1 (N = 2): append a, pop, append b, append is then blocked until the pop *)
+Example C03_ring_nonvacuous :
+  let s0 := init 0%nat [7; 8; 9]%nat in
+  exists s1 s2 s3, step 2 s0 s1 /\ step 2 s1 s2 /\ step 2 s2 s3
+    /\ received s3 = [7%nat] /\ contents 2 s3 = [8%nat] /\ pending s3 = [9%nat]
+    /\ ring_is_full (hd s3) (tl s3) 2 = true.
+Proof.
+  cbv zeta. eexists. eexists. eexists. split; [eapply s_append; [reflexivity | vm_compute; reflexivity]|].
+  split; [eapply s_pop; vm_compute; reflexivity|].
+  split; [eapply s_append; [reflexivity | vm_compute; reflexivity]|]. vm_compute. repeat split.
+Qed.
